@@ -108,6 +108,9 @@ Qed.
 Lemma sat2_a0 : forall g t th, sat2 g t th a0.
 Proof. intros. constructor; simpl; intros; discriminate. Qed.
 
+Lemma sat2_a0e : forall g t th b, sat2 g t th (a0e b).
+Proof. intros. constructor; simpl; intros; discriminate. Qed.
+
 Record same_gi2 (g g' : gstate) : Prop := {
   g2s_tr : T g' = T g; g2s_lat : s_latest (St g') = s_latest (St g); g2s_best : s_best (St g') = s_best (St g);
   g2s_reg : registry g' = registry g; g2s_fed : a_fed (alg g') = a_fed (alg g) }.
@@ -205,11 +208,11 @@ Proof.
     destruct (g2_latlock _ _ H2 _ _ _ H0 E) as [A _]. unfold holds_k in *. rewrite (sr_held _ _ H1). auto.
 Qed.
 
-Lemma branch_sound2 : forall cn rd off a g ts t th,
-  Inv ps c g ts -> Inv2 g ts -> nth_error ts t = Some th -> sat g t th a -> sat2 g t th a -> req (Branch rd cn off) a = true ->
+Lemma branch_sound2 : forall ini cn rd off a g ts t th,
+  Inv ps c g ts -> Inv2 g ts -> nth_error ts t = Some th -> sat g t th a -> sat2 g t th a -> req ini (Branch rd cn off) a = true ->
   branch_goal2 cn a g ts t th.
 Proof.
-  intros cn rd off a g ts t th HI HI2 Ht Hs Hs2 Hreq. pose proof (s_study _ _ _ _ Hs) as Hst0.
+  intros ini cn rd off a g ts t th HI HI2 Ht Hs Hs2 Hreq. pose proof (s_study _ _ _ _ Hs) as Hst0.
   destruct HI2 as [HG2 HT2].
   destruct (note_full_same2 cn (evalc c cn g th) g th Hst0) as [Hss Hsg].
   assert (Hplain : note_branch cn (evalc c cn g th) th = th ->
@@ -954,13 +957,13 @@ Qed.
 End OneStmt2.
 
 
-Lemma stmt_sound2 : forall e rd wr a g ts t th,
-  Inv ps c g ts -> Inv2 g ts -> nth_error ts t = Some th -> sat g t th a -> sat2 g t th a -> req (Stmt rd wr e) a = true ->
+Lemma stmt_sound2 : forall ini e rd wr a g ts t th,
+  Inv ps c g ts -> Inv2 g ts -> nth_error ts t = Some th -> sat g t th a -> sat2 g t th a -> req ini (Stmt rd wr e) a = true ->
   forall g' th', sem c t e g th = (g', th') -> stmt_goal2 g ts t g' th' (post_eff e a).
 Proof.
-  intros e rd wr a g ts t th HI HI2 Ht Hs Hs2 Hreq g' th' Hsem.
+  intros ini e rd wr a g ts t th HI HI2 Ht Hs Hs2 Hreq g' th' Hsem.
   pose proof (s_study _ _ _ _ Hs) as Hst0. destruct HI2 as [HG2 HT2].
-  destruct (req_stmt _ _ _ _ Hreq) as [Hok [Hwg [Hre Hfp]]].
+  destruct (req_stmt _ _ _ _ _ Hreq) as [Hok [Hwg [Hre Hfp]]].
   destruct e;
   try (unfold sem, muts, regs, study_of in Hsem; rewrite Hst0 in Hsem; simpl in Hsem;
        repeat destr_match; injection Hsem as Eg Eth; subst g' th'; simpl post_eff;
@@ -1000,7 +1003,7 @@ Lemma thread_ok2_entry : forall g t th', (pc th' = None \/ exists p, pc th' = So
 Proof.
   intros g t th' Hpc. unfold thread_ok2, cur_a. destruct Hpc as [Hpc | [p Hpc]]; rewrite Hpc.
   - exists a0. split; auto. apply sat2_a0.
-  - destruct (entry_ann ps HD p (r_ret th')) as [x [A B]]. exists x. split; auto. eapply sat2_leq; eauto. apply sat2_a0.
+  - destruct (entry_ann ps HD p (r_ret th')) as [x [A B]]. exists x. split; auto. eapply sat2_leq; eauto. apply sat2_a0e.
 Qed.
 
 Lemma Inv2_assemble : forall g ts t th g' th', nth_error ts t = Some th ->
@@ -1067,7 +1070,7 @@ Proof.
       * apply others2_same. constructor; reflexivity.
     + (* Stmt *)
       destruct (sem c t e g th) as [g1 th1] eqn:Esem.
-      destruct (stmt_sound2 e rd wr a2 g ts t th HI HI2 Ht Hs Hs2 Hreq g1 th1 Esem) as [S1 [S2 S3]].
+      destruct (stmt_sound2 _ e rd wr a2 g ts t th HI HI2 Ht Hs Hs2 Hreq g1 th1 Esem) as [S1 [S2 S3]].
       assert (Hret : exists b' a', In (S i, b', a') (succs i (r_ret th) a2 (Stmt rd wr e)) /\ r_ret th1 = b' /\ sat2 g1 t th1 a').
       { pose proof (regs_ret c t e g th) as Hr.
         assert (Eth : th1 = regs c t e g th) by (unfold sem in Esem; inv Esem; reflexivity).
@@ -1087,8 +1090,8 @@ Proof.
         eapply sat2_frame; [apply same_study2_refl | apply same_regs_pc | exact Hsa].
     + (* Branch *)
       inv Hact.
-      destruct (branch_sound2 c0 rd off a2 g ts t th HI HI2 Ht Hs Hs2 Hreq) as [B2 [B3 B4]].
-      destruct (branch_sound ps c HD c0 rd off a2 g ts t th (inv_lock _ _ _ _ HI) (inv_gi _ _ _ _ HI) Ht Hs Hreq) as [B1 _].
+      destruct (branch_sound2 _ c0 rd off a2 g ts t th HI HI2 Ht Hs Hs2 Hreq) as [B2 [B3 B4]].
+      destruct (branch_sound ps c HD _ c0 rd off a2 g ts t th (inv_lock _ _ _ _ HI) (inv_gi _ _ _ _ HI) Ht Hs Hreq) as [B1 _].
       set (b := evalc c c0 g th) in *.
       assert (Hin : In ((if b then S i else S i + off), r_ret th, post_br c0 b a2) (succs i (r_ret th) a2 (Branch rd c0 off))).
       { simpl. destruct (static_cond (r_ret th) a2 c0) as [[|]|] eqn:Est; destruct b; simpl in *; auto; exfalso; apply B1; reflexivity. }
@@ -1105,19 +1108,17 @@ Proof.
       * eapply thread_ok2_at with (a' := a2); simpl; eauto. eapply sat2_frame; [apply same_study2_refl | apply same_regs_pc | exact Hs2].
       * apply others2_same. apply same_study2_refl.
     + (* Throw *)
-      destruct k; inv Hact.
-      * eapply Inv2_assemble; eauto.
-        -- eapply GI2_same_threads; eauto. apply same_regs_pc.
-        -- apply thread_ok2_entry. left. reflexivity.
-        -- apply others2_same. apply same_study2_refl.
-      * eapply Inv2_assemble; eauto.
-        -- eapply GI2_same_threads; eauto. apply same_regs_to_script.
-        -- apply thread_ok2_entry. apply to_script_pc.
-        -- apply others2_same. apply same_study2_refl.
-      * eapply Inv2_assemble; eauto.
-        -- eapply GI2_same_threads; eauto. apply same_regs_to_script.
-        -- apply thread_ok2_entry. apply to_script_pc.
-        -- apply others2_same. apply same_study2_refl.
+      assert (Hfin : g' = g -> th' = th_pc None th -> Inv2 g' (set_th ts t th')).
+      { intros; subst. eapply Inv2_assemble; eauto.
+        - eapply GI2_same_threads; eauto. apply same_regs_pc.
+        - apply thread_ok2_entry. left. reflexivity.
+        - apply others2_same. apply same_study2_refl. }
+      assert (Hscr : g' = g -> th' = to_script None true th -> Inv2 g' (set_th ts t th')).
+      { intros; subst. eapply Inv2_assemble; eauto.
+        - eapply GI2_same_threads; eauto. apply same_regs_to_script.
+        - apply thread_ok2_entry. apply to_script_pc.
+        - apply others2_same. apply same_study2_refl. }
+      destruct k; try destruct (Nat.eqb p P_init); injection Hact as Eg Eth; auto.
     + (* Done *)
       inv Hact. eapply Inv2_assemble; eauto.
       * eapply GI2_same_threads; eauto. apply same_regs_to_script.
